@@ -10,6 +10,13 @@ from extract import pyexpr
 from extract.ratexpr import Tr
 
 ID = "C05"
+#: functions the hand-written model transcribes: their control skeleton (extract/shape.py) is regenerated into
+#: Gen/C05.lean and compared with the literal in Properties/C05.lean (`modelled_functions_have_the_transcribed_shape`)
+SHAPES = [
+    ("shapeFit", "mlinsights/mlmodel/quantile_regression.py", "QuantileLinearRegression.fit"),
+    ("shapeEpsilon", "mlinsights/mlmodel/quantile_regression.py", "QuantileLinearRegression._epsilon"),
+    ("shapeScore", "mlinsights/mlmodel/quantile_regression.py", "QuantileLinearRegression.score"),
+]
 SRC = "mlinsights/mlmodel/quantile_regression.py"
 LEAN_TARGETS = ["MlVerif.Gen.C05", "MlVerif.Model.Quantile", "MlVerif.Lemmas.Quantile", "MlVerif.Properties.C05"]
 PROPERTY_FILE = "MlVerif/Properties/C05.lean"
@@ -272,6 +279,29 @@ def extract(ctx):
     else:
         no_int_val = _unk("self.intercept_ without fit_intercept")
     fit_call = [ast.unparse(c) for c in pyexpr.calls(fit, "clr.fit")]
+    # what `fit` itself (outside the nested compute_z) binds to the names of its inputs, in source order; and the
+    # position of the DataFrame -> array conversion relative to the construction of the design matrix
+    rebinds, order = [], []
+    for idx, st in enumerate(fit.body):
+        if isinstance(st, ast.FunctionDef):
+            continue
+        for n in ast.walk(st):
+            tg = []
+            if isinstance(n, ast.Assign):
+                tg = n.targets
+            elif isinstance(n, (ast.AugAssign, ast.AnnAssign)):
+                tg = [n.target]
+            for t in tg:
+                for nm in ast.walk(t):
+                    if isinstance(nm, ast.Name) and nm.id in ("X", "y", "sample_weight") and isinstance(nm.ctx, ast.Store):
+                        rebinds.append(ast.unparse(n).replace('"', "'"))
+            if isinstance(n, ast.Assign) and ast.unparse(n.targets[0]) == "X" and ast.unparse(n.value) == "X.values":
+                order.append(("convert", idx))
+            if isinstance(n, ast.Assign) and ast.unparse(n.targets[0]) == "Xm":
+                order.append(("design", idx))
+    conv = [i for k, i in order if k == "convert"]
+    des = [i for k, i in order if k == "design"]
+    conv_first = bool(conv) and bool(des) and max(conv) < min(des)
     body = pyexpr.HEADER + """import MlVerif.Gen.Base
 set_option linter.unusedVariables false
 namespace MlVerif.Gen.C05
@@ -330,6 +360,10 @@ def designWithIntercept : String := "%(design_with)s"
 def designWithoutIntercept : String := "%(design_without)s"
 def tailWithIntercept : List String := %(tail_with)s
 def tailWithoutIntercept : List String := %(tail_without)s
+/-- every statement of `fit` (outside `compute_z`) that binds one of the input names `X`, `y`, `sample_weight` -/
+def fitInputRebinds : List String := %(rebinds)s
+/-- the DataFrame -> array conversion of `X` precedes the construction of the design matrix `Xm` -/
+def conversionBeforeDesign : Bool := %(conv_first)s
 
 end MlVerif.Gen.C05
 """ % {
@@ -346,6 +380,7 @@ end MlVerif.Gen.C05
         "design_with": design["with"].replace('"', "'"), "design_without": design["without"].replace('"', "'"),
         "tail_with": "[" + ", ".join('"%s"' % s for s in tail["with"]) + "]",
         "tail_without": "[" + ", ".join('"%s"' % s for s in tail["without"]) + "]",
+        "rebinds": "[" + ", ".join('"%s"' % s for s in rebinds) + "]", "conv_first": str(conv_first).lower(),
     }
     return {"MlVerif/Gen/C05.lean": body}
 
@@ -700,10 +735,12 @@ def _make_case(cfg):
     rs = numpy.random.RandomState(cfg["seed"])
     n, d = cfg["n"], cfg["d"]
     X = rs.randn(n, d)
+    if cfg.get("container") == "intX":
+        X = rs.randint(-6, 7, size=(n, d)).astype(float)      # integer-VALUED features (counts); real targets
     beta = rs.randn(d)
     if cfg.get("positive"):
         beta = numpy.abs(beta)
-        X = X + 0.5
+        X = X + (1.0 if cfg.get("container") == "intX" else 0.5)
     y = X @ beta + (1.0 if cfg.get("fit_intercept", True) else 0.0) + rs.randn(n) * cfg["noise"]
     y = y * cfg.get("scale", 1.0)          # targets of another scale; the residual floor `delta` is scaled alike
     w = None
@@ -730,8 +767,17 @@ def _check_case(cfg):
         warnings.simplefilter("ignore")
         m = QLR(quantile=q, max_iter=cfg.get("max_iter", SEARCH_ITERS), fit_intercept=fi, positive=pos,
                 delta=1e-4 * cfg.get("scale", 1.0))
+        # the same training set in another container ("all training sets"): integer-typed features, or a DataFrame
+        # with a Series target whose index labels are not X's (rows are matched by position, as for arrays)
+        Xc, yc = X, y
+        if cfg.get("container") == "intX":
+            Xc = X.astype(numpy.int64)
+        elif cfg.get("container") == "frame":
+            import pandas
+            Xc = pandas.DataFrame(X, columns=["f%d" % j for j in range(d)])
+            yc = pandas.Series(y, index=numpy.random.RandomState(cfg["seed"] + 2).permutation(n))
         try:
-            r = m.fit(X, y, w)
+            r = m.fit(Xc, yc, w)
         except Exception as e:
             return [("fit:raises", "fit raises %s on a full-rank training set" % type(e).__name__,
                      "%s: %s" % (type(e).__name__, e), "a fitted model")], stats
@@ -835,6 +881,10 @@ def _configs(ctx, count):
                     "fit_intercept": rng.random() < 0.75, "positive": rng.random() < 0.2})
         if t % 8 == 5:
             out[-1]["scale"] = rng.choice([1e-6, 1e-3, 1e3])
+        if t % 5 == 3:
+            out[-1]["container"] = rng.choice(["intX", "frame"])
+            if out[-1]["container"] == "frame" and t % 2:
+                out[-1]["fit_intercept"] = False
     return out
 
 
